@@ -36,6 +36,9 @@ func TaskExecutor.ExecuteAt
   modifies everything
   -- the previous task of the identifier is superseded, the new one is live
   ghost after call QueueElement.Cancel: live = upd(live, queuedElement, false)
+  -- replace = cancel first, then queue: while the new task is queued the old one is gone (with a bounded queue the
+  -- replacement must not push the queue over its bound by one and evict a task)
+  ghost before call Executor.ExecuteAt: assert queuedElementExists ==> !sel(live, queuedElement)
   ghost after call Executor.ExecuteAt: live = upd(live, result, result != nil)
   ghost after call Executor.ExecuteAt: idOf = upd(idOf, result, identifier)
   ensures unlocked(t.queuedElementsMutex)
